@@ -286,7 +286,7 @@ func (w *srvWorld) genID(n int) string {
 		// with the same digits, which are different ids (numbers that are equal in
 		// value but spelt differently, 1 and 1.0, are left out: whether they are
 		// one id is not settled by the property)
-		pool := []string{`1`, `2`, `"1"`, `3`, `"2"`, `4`}
+		pool := []string{`1`, `2`, `"1"`, `3`, `"2"`, `9007199254740992`, `9007199254740993`, `4`}
 		n := w.cfg.IDPool
 		if n > len(pool) {
 			n = len(pool)
@@ -929,7 +929,18 @@ func (w *srvWorld) peerSawRecord(raw string) {
 			w.queueReply(pr, false)
 		case 3:
 			w.queueReply(pr, false)
-			w.queueReply(pr, false)
+			if w.r.Sch.Chance("dupshape", 0.5) {
+				// the duplicate arrives after the first reply has completed the
+				// callback and must be discarded whatever it looks like: a void
+				// result, a scalar, an error object without data
+				w.nreply++
+				body := []string{`"result":null`, `"result":0`, `"result":""`, `"result":[]`, `"result":{}`, `"error":{"code":1,"message":"dup"}`, `"error":{"code":-32603,"message":"dup","data":null}`}[w.r.Sch.Int("dupbody", 7)]
+				raw := fmt.Sprintf(`{"jsonrpc":"2.0","id":%s,%s}`, pr.ID, body)
+				pr.Replies = append(pr.Replies, peerReply{Seq: w.seq(), Arrive: -1, Payload: fmt.Sprintf("dupshape%d", w.nreply), Raw: raw, IsErr: strings.Contains(body, `"error"`)})
+				w.outbox = append(w.outbox, raw)
+			} else {
+				w.queueReply(pr, false)
+			}
 		}
 	}
 }
@@ -1318,7 +1329,13 @@ func (w *srvWorld) drive(atQ func()) bool {
 // shutdown closes the peer end, waits for the server and runs to quiescence.
 func (w *srvWorld) shutdown() bool {
 	r := w.r
-	w.closeGate = true
+	// Stop ends the server by itself: when Stop() has returned and the channel
+	// is one whose Close unblocks a pending Recv, WaitStatus returns once the
+	// handlers have - it must not need the peer to hang up first.
+	local := w.cfg.Prop == "C08" && w.stopDone >= 0 && w.sEnd.CloseUnblocks && !w.peerClosedEarly()
+	if !local {
+		w.closeGate = true
+	}
 	w.releaseAll = true
 	r.Sim.Spawn("w-wait", func() {
 		st := w.srv.WaitStatus()
@@ -1335,7 +1352,33 @@ func (w *srvWorld) shutdown() bool {
 			r.Ev("restart", "", 0, 0, "immediately after WaitStatus")
 		}
 	})
-	return r.RunQ()
+	if !r.RunQ() {
+		return false
+	}
+	if local {
+		if w.status == nil {
+			why := ""
+			for _, g := range r.Sim.Unfinished() {
+				why += fmt.Sprintf(" %s@%s(%s)", g.Name, g.Site, g.State())
+			}
+			r.Fail("waitstatus-never-returned", "Stop() has returned (#%d), every handler has been released and the channel's Close unblocks Recv, yet WaitStatus has not returned while the peer is still connected; goroutines left:%s", w.stopDone, why)
+			return false
+		}
+		r.Probe("waitstatus-returned-before-peer-closed")
+		w.closeGate = true
+		return r.RunQ()
+	}
+	return true
+}
+
+// peerClosedEarly: the scripted peer has already hung up.
+func (w *srvWorld) peerClosedEarly() bool {
+	for _, c := range w.causes {
+		if c.Kind == "closed" {
+			return true
+		}
+	}
+	return false
 }
 
 func (w *srvWorld) sample() any {
@@ -1588,6 +1631,17 @@ func (w *srvWorld) checkObservers() {
 		return
 	}
 	for _, o := range w.observers {
+		if o.Done {
+			// whoever calls it, WaitStatus (Wait) returns only after every handler has returned
+			for _, msg := range w.msgs {
+				for _, m := range msg.Members {
+					if m.Enter >= 0 && m.Enter < o.Seq && (m.Exit < 0 || m.Exit > o.Seq) {
+						r.Fail("waitstatus-before-handler-exit", "%s: WaitStatus/Wait returned at #%d to this caller while handler %s (entered #%d) had not returned (exit #%d)", o.Name, o.Seq, m.Tag, m.Enter, m.Exit)
+						return
+					}
+				}
+			}
+		}
 		if !o.Done {
 			r.Fail("waitstatus-never-returned", "%s: a second caller of WaitStatus/Wait has not returned although the server has ended (status %+v)", o.Name, *w.status)
 			return
